@@ -310,6 +310,19 @@ def toLql (dp : Bytes → Option Int) (fuel : Nat) (v : Val) : Option Lql := do
   let de ← optNode v "Delete" (fun d => some ({ pipeName := optStr d "PipeName" } : Delete))
   pure { select := sel, describe := desc, truncate := tr, show_ := sh, create := cr, delete := de }
 
+/-- a SELECT whose `Range` has neither time point (`RANGE [`: every part of the Range grammar is optional) -/
+def hasEmptyRange (l : Lql) : Bool :=
+  match l.select with
+  | some s => (match s.range with | some r => r.p1.isNone && r.p2.isNone | none => false)
+  | none => false
+
+/-- the post-check of `ParseLql` after the participle parse (2681434), as the extractor finds it in /repo now -/
+def postCheck (l : Lql) : Option Lql :=
+  if Logrange.Generated.C12.parseLqlRejectsEmptyRange && hasEmptyRange l then none else some l
+
+/-- `lql.ParseLql` after lexing: typed application of the captures, then the post-check -/
+def toLqlChecked (dp : Bytes → Option Int) (fuel : Nat) (v : Val) : Option Lql := (toLql dp fuel v).bind postCheck
+
 /-! ## canonical serialisation (compared with the Go harness' reflection-based serialisation of the real AST) -/
 
 def hexS (b : Bytes) : String := Go.hex b
